@@ -218,11 +218,14 @@ fn run(rng: &mut Rng, idx: u64, tier: Tier) -> CaseOut {
         }
     }
     let plain_san = get!(run_ep(if with_domains { Ep::Extended } else { Ep::Formula }, &text, &sys, &empty), "sanitised plain evaluation");
-    let ext_san = get!(run_ep(Ep::Extended, &text, &sys, &empty), "sanitised extended evaluation with empty context");
+    // (both sanitising extended entry points: the single-formula one and the multi-formula one)
+    let san_ep = if rng.coin() { Ep::Extended } else { Ep::MultipleExtended };
+    let ext_san = get!(run_ep(san_ep, &text, &sys, &empty), format!("sanitised extended evaluation ({}) with empty context", san_ep.name()));
     if plain_san != ext_san {
-        out.violate("extended entry point with empty context differs from the plain one", format!("sanitised variants on `{text}`"), detail("empty context, sanitised"));
+        out.violate("extended entry point with empty context differs from the plain one", format!("sanitised variants on `{text}` ({} vs the plain sanitising entry point)", san_ep.name()), detail("empty context, sanitised"));
         return out;
     }
+    out.count(if san_ep == Ep::Extended { "sanitised_via_single_extended" } else { "sanitised_via_multiple_extended" });
     // the multi-formula extended entry point against the plain one, on a batch whose formulae have different heights
     if !with_domains {
         let mut batch: Vec<String> = vec![text.clone()];
@@ -315,9 +318,10 @@ fn run(rng: &mut Rng, idx: u64, tier: Tier) -> CaseOut {
         }
         out.count("label_batches");
     }
-    let r = get!(run_ep(Ep::Extended, &gtext, &sys, &ctx), "sanitised evaluation of the substituted formula");
+    let san_ep2 = if san_ep == Ep::Extended { Ep::MultipleExtended } else { Ep::Extended };
+    let r = get!(run_ep(san_ep2, &gtext, &sys, &ctx), format!("sanitised evaluation ({}) of the substituted formula", san_ep2.name()));
     if r != plain_san {
-        out.violate("substituting a pre-computed result changes the outcome", format!("sanitised: `{text}` vs `{gtext}`"), detail("sanitised"));
+        out.violate("substituting a pre-computed result changes the outcome", format!("sanitised ({}): `{text}` vs `{gtext}`", san_ep2.name()), detail("sanitised"));
         return out;
     }
     drain_events(&mut out);
